@@ -61,4 +61,28 @@ def runFreePol (payload : String) : String × String × String :=
     | _ => ("BADCASE", "BADCASE", "")
   | _ => ("BADCASE", "BADCASE", "")
 
+/-- stream `sealpol` (C13): the stack's own PushPolicy switches no-nesting on / off in the middle of a batch; the option is consulted
+for every value as it stands when that value's turn comes (`methodAppend`: no-nesting filter, room, policy, append) -/
+def runSealPol (payload : String) : String × String × String :=
+  match payload.splitOn " | " with
+  | recv :: rest =>
+    match (parseVal (words recv)).1 with
+    | .stk _ c xs =>
+      let vals := (parseVals [] (words (" ".intercalate rest))).1
+      let k : Option Nat := if c.cap > 0 then some (c.cap - 1).toNat else none
+      let nn0 : Bool := c.opt / 256 % 2 == 1
+      let (ys, nn) := vals.foldl (fun (acc : List Val × Bool) v =>
+          let (ys, nn) := acc
+          if nn && v.isStack then (ys, nn)
+          else if (match k with | some k => decide (ys.length ≥ k) | none => false) then (ys, nn)
+          else
+            let nn' := match v with
+              | .leaf (.str t) => if t == "seal".toList then true else if t == "unseal".toList then false else nn
+              | _ => nn
+            (ys ++ [v], nn')) (xs, nn0)
+      let line := s!"L{ys.length} [{" ".intercalate (ys.map short)}] N{b01 (!nn)}"
+      (line, line, "")
+    | _ => ("BADCASE", "BADCASE", "")
+  | _ => ("BADCASE", "BADCASE", "")
+
 end Stackage.Driver
